@@ -68,7 +68,7 @@ def shrink_files(db):
     db.hashes_file.file_size = 96
 
 
-def run_scenario(ctx_like, scratch, case, cuts=None, double=False):
+def run_scenario(ctx_like, scratch, case, cuts=None, double=False, last_flush_only=False):
     '''Returns (message, sig, info).  cuts=None -> all cuts; else an explicit list
     [(index, torn_bytes|None)...] (replay).'''
     tail = case.get('tail') or []
@@ -124,7 +124,10 @@ def run_scenario(ctx_like, scratch, case, cuts=None, double=False):
     commits = crash.committed_heights(ctl0.marks)
     spans = crash.flush_spans(ctl0.marks)
     opened_h = next(p for c, label, p in ctl0.marks if label == 'opened')
-    if cuts is None:
+    if cuts is None and last_flush_only and any(e > b for b, e, _ in spans):
+        b, e, _ = [s for s in spans if s[1] > s[0]][-1]      # the last flush that wrote anything
+        cuts = [(k, None) for k in range(b, min(e + 2, n_ops + 1))]
+    elif cuts is None:
         cuts = [(k, None) for k in range(n_ops + 1)]
         for idx, kind, store, caller, in_backup, size in ctl0.log:
             if kind == 'file_write' and size > 1:
@@ -231,10 +234,45 @@ def body(ctx):
     return run
 
 
+def large_flush_case(n):
+    '''One flush that touches n distinct script hashes (a fan-out to n distinct scripts in the
+    block before the tip), after an earlier full flush.'''
+    blk = {'cb': [[0, 0]], 'nonce': 0, 'coll': None, 'txs': []}
+    blocks = [dict(blk, nonce=i) for i in range(3)]
+    blocks.append(dict(blk, nonce=3, txs=[{'ins': [0], 'outs': [[1, 2]], 'fanout_distinct': n}]))
+    blocks.append(dict(blk, nonce=4))
+    return {'activation': 0, 'prefetch': 4, 'reorg_limit': 5, 'blocks': blocks,
+            'flush': [0, 0, 2, 0, 0], 'reveals': [], 'lat': [], 'chunk': None,
+            'small_files': 0, 'tail': []}
+
+
+def run_large_flush(ctx):
+    '''Deterministic, one shard: the cuts inside the big flush (quick) / all cuts (thorough).'''
+    if ctx.shard != ctx.nshards - 1:
+        return
+    for n in ([100_001] if ctx.quick else [65_537, 100_001, 131_073]):
+        if ctx.over_budget():
+            return
+        case = large_flush_case(n)
+        msg, sig, info = run_scenario(ctx, ctx.scratch, case, last_flush_only=ctx.quick)
+        ctx.evaluations += info['executions']
+        ctx.classes['large_flush.cuts'] += info['cuts']
+        for key in info['nt_keys']:
+            ctx.nontrivial.add(f'large/{n}/{key}')
+        if msg:
+            ctx.violations.append({'check': 'c04.large_flush', 'case': case, 'message':
+                                   f'flush touching {n} distinct script hashes: ' + msg,
+                                   'sig': sig})
+
+
 def run(ctx):
+    run_large_flush(ctx)
     hyp_run(ctx, 'c04.scenario', case_strategy(), body(ctx), ctx.pick(12, 800), shrink=True)
 
 
 def replay(ctx, check, case):
+    if check == 'c04.large_flush':
+        msg, sig, _ = run_scenario(None, ctx.scratch, case, last_flush_only=True)
+        return (msg, sig) if msg else None
     msg, sig, _ = run_scenario(None, ctx.scratch, case)
     return (msg, sig) if msg else None
